@@ -148,6 +148,9 @@ class Engine(object):
                     ty = Ty.TInst('%s:%s' % (fi.modname, fi.clsname))
                 else:
                     ty = Ty.ANY
+            if p in c.consts:
+                st.env[p] = const_sv(c.consts[p])
+                continue
             t = z3.Const('p_' + p, Val)
             st.env[p] = SV(t, ty)
             st.assume(shape(st, t, ty))
@@ -169,9 +172,15 @@ class Engine(object):
             if o.kind == 'return':
                 res.exits[o.site] = res.exits.get(o.site, 0) + 1
                 for lab, text in c.labelled(c.ensures):
-                    g = SP.SpecEval(o.st, ex.old_state.env, modname, old=ex.old_state, result=o.val,
-                                    extra=ex.let_values).bool(text)
-                    ex.oblige(o.st, g, 'post[%s]@%s' % (lab, o.site), 'post', {'outcome': o})
+                    sev = SP.SpecEval(o.st, ex.old_state.env, modname, old=ex.old_state, result=o.val,
+                                      extra=ex.let_values)
+                    g = sev.bool(text)
+                    st2 = o.st
+                    if sev.typing:
+                        st2 = o.st.copy()
+                        for f in sev.typing:
+                            st2.assume(f)
+                    ex.oblige(st2, g, 'post[%s]@%s' % (lab, o.site), 'post', {'outcome': o})
                 if not isinstance(c.returns, Ty.TAny):
                     ex.oblige(o.st, shape(o.st, o.val.term, c.returns), 'rettype@%s' % o.site, 'post', {'outcome': o})
                 self.frame_obligations(ex, c, o, modname)
